@@ -53,6 +53,8 @@ def confirm(d):
         pkgrel = "./" + os.path.dirname(place)[len(module) + 1:]
         env = vlib.go_env()
         ovf = "/tmp/quic-overlay.json"
+        if "quic-overlay-sim" in open(os.path.join(d, "demo.txt")).read():
+            ovf = "/tmp/quic-overlay-sim.json"  # the demonstration runs p2p.Run over the simulated transport
         ov = "-overlay %s" % ovf if (module == "node" and os.path.exists(ovf)) else ""
         sh("cp %s %s" % (os.path.join(d, "demo_test.go"), os.path.join(wt, place)))
         rc, out = sh("go test %s -vet=off -count=1 -run '%s' %s" % (ov, run, pkgrel), cwd=os.path.join(wt, module), env=env)
